@@ -4,7 +4,7 @@
    module, NetEvents::handle.  The script format and the driver are in Own/Model.v.
    No proofs in this file. *)
 From Coq Require Import List NArith Arith Bool.
-From DesVerif Require Import Common.Codec CQueue.Model CQueue.Spec Own.Heap Own.Shape.
+From DesVerif Require Import Common.Codec CQueue.Model CQueue.Spec Own.Heap Own.Shape Own.Safe Own.Ops.
 Import ListNotations.
 Open Scope N_scope.
 
@@ -31,14 +31,14 @@ Record chanrec := { ch_id : nat; ch_busy : bool; ch_q : list (nat * nat * N) }. 
 
 Record world := {
   w_pin : bool;
-  w_st : st; w_fes : sp; w_buf : list (nat * N); w_clock : N; w_itr : N;
+  w_st : rs; w_fes : sp; w_buf : list (nat * N); w_clock : N; w_itr : N;
   w_mods : list modrec; w_order : list nat;
   w_chans : list chanrec; w_gown : list (nat * nat); w_eaux : list (nat * N);
   w_tree : nat; w_glob : nat; w_held : list nat;
   w_nmsg : N; w_ntask : N; w_log : list N; w_err : bool }.
 
 (* ---- setters ---- *)
-Definition wset_st (w : world) (s : st) : world :=
+Definition wset_st (w : world) (s : rs) : world :=
   {| w_pin := w_pin w; w_st := s; w_fes := w_fes w; w_buf := w_buf w; w_clock := w_clock w; w_itr := w_itr w;
      w_mods := w_mods w; w_order := w_order w; w_chans := w_chans w; w_gown := w_gown w; w_eaux := w_eaux w;
      w_tree := w_tree w; w_glob := w_glob w; w_held := w_held w; w_nmsg := w_nmsg w; w_ntask := w_ntask w;
@@ -102,8 +102,9 @@ Definition updm (w : world) (i : nat) (f : modrec -> modrec) : world :=
   end.
 
 (* lift a heap operation *)
-Definition wst (w : world) (f : st -> st) : world := wset_st w (f (w_st w)).
-Definition wrel (w : world) (o : nat) : world := wst w (fun s => release s o).
+Definition wst (w : world) (f : rs -> rs) : world := wset_st w (f (w_st w)).
+Definition wrel (w : world) (o : nat) : world := wst w (fun s => p_release s o).
+Definition whp (w : world) : heap := rhp (w_st w).
 
 (* ---- the event sink: the runtime's event set, or the static buffer BUF_CTX.events ---- *)
 Definition fes_add (w : world) (e : nat) (t : N) : world :=
@@ -125,7 +126,7 @@ Definition chan_send (direct : bool) (w : world) (c msg g : nat) (eid : N) : wor
   let r := chan_get w c in
   if ch_busy r then
     (* ChannelDropBehaviour::Queue(None): buffer.enqueue(msg, via) *)
-    let w1 := wst w (fun s => enqueue (w_pin w) s c msg g) in
+    let w1 := wst w (fun s => enqueue s c msg g) in
     chan_set w1 {| ch_id := c; ch_busy := true; ch_q := ch_q r ++ [(msg, g, eid)] |}
   else
     (* the exit of the message is scheduled before the unbusy notification (fix f99a7c7) *)
@@ -143,7 +144,7 @@ Fixpoint walk (fuel : nat) (direct : bool) (w : world) (msg g : nat) (eid : N) :
   | O => wrel w msg
   | S f =>
       let idx := if eid =? 1 then 0 else 1 in
-      match conn_at (hp (w_st w)) g idx with
+      match conn_at (whp w) g idx with
       | Some (g2, eid2, ch) =>
           let w1 := wst w (fun s => set_last_gate s msg g2) in
           if negb (m_active (getm w1 (owner_of w1 g))) then wrel w1 msg     (* owner inactive: drop(msg) *)
@@ -177,11 +178,11 @@ Fixpoint slot_insert (t : N) (task : nat) (mk : unit -> nat) (l : list (N * nat 
 (* Sleep's first poll: TimerQueue::add (driver.rs:100-130) *)
 Definition register_timer (w : world) (i : nat) (task : nat) (deadline : N) : world :=
   let m := getm w i in
-  let next_id := length (hp (w_st w)) in            (* the slot object, if one has to be created *)
+  let next_id := length (whp w) in            (* the slot object, if one has to be created *)
   let x := slot_insert deadline task (fun _ => next_id) (m_slots m) in
-  let w1 := if snd x then wst w (fun s => fst (new_slot (w_pin w) s (m_queue m))) else w in
+  let w1 := if snd x then wst w (fun s => fst (new_slot s (m_queue m))) else w in
   let sl := match find (fun p => fst (fst p) =? deadline) (fst x) with Some p => snd (fst p) | None => 0%nat end in
-  let w2 := wst w1 (fun s => st_weak s task 0 sl) in
+  let w2 := wst w1 (fun s => p_weak s task 0 sl) in
   updm w2 i (fun r => mset_slots r (fst x)).
 
 Fixpoint insert_sorted (x : nat * N) (l : list (nat * N)) : list (nat * N) :=
@@ -204,7 +205,7 @@ Definition poll_tasks (w : world) (i : nat) : world :=
   let w2 := fold_left (fun wa tc =>
               let wb := wlog wa i 3 (snd tc) in
               match m_rt (getm wb i) with
-              | Some r => wst wb (fun s => st_drop_edge s r (fst tc))       (* the finished future is dropped *)
+              | Some r => wst wb (fun s => drop_edge s r (fst tc))       (* the finished future is dropped *)
               | None => wb
               end) fin w1 in
   updm w2 i (fun r => mset_tasks r (filter (fun x => negb (existsb (Nat.eqb (fst (fst x))) (m_woken m))) (m_tasks r)) [] []).
@@ -220,11 +221,11 @@ Definition ensure_rt (w : world) (i : nat) : world :=
 (* ModuleRef::activate (refs.rs:194-216) *)
 Definition activate (w : world) (i : nat) : world :=
   let m := getm w i in
-  let w1 := wst w (fun s => st_root s (m_ctx m)) in                   (* MOD_CTX <- Arc::clone(&self.ctx) *)
+  let w1 := wst w (fun s => p_clone s (m_ctx m)) in                   (* MOD_CTX <- Arc::clone(&self.ctx) *)
   (* Driver::bump: every slot with time <= now is unwrapped, its wakers fire, the slot is dropped *)
   let due := filter (fun p => fst (fst p) <=? w_clock w) (m_slots m) in
   let rest := filter (fun p => negb (fst (fst p) <=? w_clock w)) (m_slots m) in
-  let w2 := fold_left (fun wa p => wst wa (fun s => st_drop_edge s (m_queue m) (snd (fst p)))) due w1 in
+  let w2 := fold_left (fun wa p => wst wa (fun s => drop_edge s (m_queue m) (snd (fst p)))) due w1 in
   let nw := match m_nw m with Some t => if t <=? w_clock w then None else Some t | None => None end in
   updm w2 i (fun r => mset r (m_rt r) (m_active r) (m_handled r) nw rest (m_tasks r) (m_new r)
                            (m_woken r ++ flat_map (fun p => snd p) due) (m_shut r)).
@@ -239,7 +240,7 @@ Fixpoint drop_empty_front (l : list (N * nat * list nat)) : list nat * list (N *
 Definition deactivate (w : world) (i : nat) : world :=
   let m := getm w i in
   let x := drop_empty_front (m_slots m) in                          (* TimerQueue::next pops emptied front slots *)
-  let w1 := fold_left (fun wa sl => wst wa (fun s => st_drop_edge s (m_queue m) sl)) (fst x) w in
+  let w1 := fold_left (fun wa sl => wst wa (fun s => drop_edge s (m_queue m) sl)) (fst x) w in
   let w2 := updm w1 i (fun r => mset_slots r (snd x)) in
   let w3 := match snd x with
             | (t, _, _) :: _ =>
@@ -267,7 +268,7 @@ Definition do_schedule (w : world) (i : nat) (d : N) : world :=
 Definition do_send (w : world) (i : nat) : world :=
   match m_gates (getm w i) with
   | g :: _ =>
-      if 2 <=? conn_count (hp (w_st w)) g then w          (* the script never sends on a transit gate *)
+      if 2 <=? conn_count (whp w) g then w          (* the script never sends on a transit gate *)
       else let '(w1, msg) := fresh_msg w in exit_conn false w1 msg g 1
   | [] => w
   end.
@@ -303,7 +304,7 @@ Definition buf_process (w : world) (i : nat) : world :=
       (* async_ext.rt.shutdown(): the runtime and every task of the module are dropped; a dropped
          Sleep takes its entry out of its slot (TimerSlotEntryHandle::drop, driver.rs:43-52) *)
       let w2 := match m_rt m with
-                | Some r => wst w1 (fun s => st_drop_edge s (m_ctx m) r)
+                | Some r => wst w1 (fun s => drop_edge s (m_ctx m) r)
                 | None => w1 end in
       let w3 := updm w2 i (fun r => mset r None false (m_handled r) (m_nw r)
                                      (map (fun p => (fst p, @nil nat)) (m_slots r)) [] [] [] None) in
@@ -325,7 +326,7 @@ Definition handle_message (w : world) (i : nat) (msg : nat) : world :=
   if negb (m_active m) then wrel w msg
   else
     let w0 := ensure_rt w i in
-    let pay := match tag_of (hp (w_st w0)) msg with Some (TMsg p) => p | _ => 0 end in
+    let pay := match tag_of (whp w0) msg with Some (TMsg p) => p | _ => 0 end in
     let w1 := wrel (wlog w0 i 2 pay) msg in
     let n := m_handled m + 1 in
     let w2 := updm w1 i (fun r => mset_handled r n) in
@@ -342,7 +343,7 @@ Definition handle_message (w : world) (i : nat) (msg : nat) : world :=
     else poll_tasks w2 i.
 
 Definition take_field (w : world) (e : nat) (f : N) : world * option nat :=
-  let '(s1, r) := st_move_out (w_st w) e (fun k => kf k f) in (wset_st w s1, r).
+  let '(s1, r) := p_detach (w_st w) e (fun x => kf (ek x) f) in (wset_st w s1, r).
 
 Definition mod_of_ctx (w : world) (c : nat) : nat :=
   let fix go (l : list modrec) (i : nat) : nat :=
@@ -350,16 +351,16 @@ Definition mod_of_ctx (w : world) (c : nat) : nat :=
   go (w_mods w) 0%nat.
 
 Definition event_module (w : world) (e : nat) : nat :=
-  match find (fun x => kf (ek x) 3) (edges_of (hp (w_st w)) e) with
+  match find (fun x => kf (ek x) 3) (edges_of (whp w) e) with
   | Some x => mod_of_ctx w (et x) | None => 0%nat end.
 
 (* NetEvents::handle.  The event value is consumed: whatever it still holds is dropped at the end. *)
 Definition dispatch (w : world) (e : nat) : world :=
-  let kind := match tag_of (hp (w_st w)) e with Some (TEvent k) => k | _ => 9 end in
+  let kind := match tag_of (whp w) e with Some (TEvent k) => k | _ => 9 end in
   match N.to_nat kind with
   | 0%nat => (* MessageExitingConnection: handle_with_sink(rt) *)
       let eid := match find (fun p => Nat.eqb (fst p) e) (w_eaux w) with Some p => snd p | None => 1 end in
-      let g := match find (fun x => kf (ek x) 0) (edges_of (hp (w_st w)) e) with Some x => et x | None => 0%nat end in
+      let g := match find (fun x => kf (ek x) 0) (edges_of (whp w) e) with Some x => et x | None => 0%nat end in
       let '(w1, msg) := take_field w e 2 in
       let w2 := match msg with Some m => exit_conn true w1 m g eid | None => w1 end in
       wrel w2 e
@@ -370,12 +371,12 @@ Definition dispatch (w : world) (e : nat) : world :=
       let w3 := match msg with Some m => handle_message w2 i m | None => w2 end in
       wrel (buf_process (deactivate w3 i) i) e
   | 2%nat => (* ChannelUnbusyNotif: Channel::unbusy (channel.rs:256-272) *)
-      let c := match find (fun x => kf (ek x) 1) (edges_of (hp (w_st w)) e) with Some x => et x | None => 0%nat end in
+      let c := match find (fun x => kf (ek x) 1) (edges_of (whp w) e) with Some x => et x | None => 0%nat end in
       let r := chan_get w c in
       let w1 := match ch_q r with
                 | (_, g, eid) :: rest =>
                     let wa := chan_set w {| ch_id := c; ch_busy := false; ch_q := rest |} in
-                    let '(s1, m) := dequeue (w_pin w) (w_st wa) c in
+                    let '(s1, m) := dequeue (w_st wa) c in
                     match m with Some m => chan_send true (wset_st wa s1) c m g eid | None => wset_st wa s1 end
                 | [] => chan_set w {| ch_id := c; ch_busy := false; ch_q := [] |}
                 end in
